@@ -86,6 +86,7 @@ def ser_case(ty, v, kind):
 
 def fixed_cases():
     out = [Case("fidelity", [str(i).encode()], {"kind": "fidelity"}) for i in range(N_FIDELITY)]
+    out.append(Case("consts", [], {"kind": "consts"}))
     out.append(ser_case(F6_TY, F6_VAL, "F6-witness"))
     out.append(ser_case(S3_TY, S3_VAL, "S3-witness"))
     out.append(ser_case(S3B_TY, S3B_VAL, "S3-witness"))
@@ -115,7 +116,9 @@ def gen_cases(rng, tier):
 
 
 def parse_ser_line(line):
-    """-> {route: ("err", kind) | ("ok", payload, [(tag, "=" | ("dump", s) | ("ERR", msg))], invalid)}"""
+    """-> {route: ("err", kind) | ("ok", payload, [(tag, "=" | ("dump", s) | ("ERR", msg))], invalid, tree)}
+    tree: the value tree of a text / document output as the harness re-read it (tag `tree`, used by the
+    correspondence with the Coq model only; the oracle does not look at it)"""
     res = {}
     for part in line.split(" "):
         name, _, rest = part.partition("=")
@@ -123,19 +126,22 @@ def parse_ser_line(line):
             res[name] = ("err", rest[4:-1])
         elif rest.startswith("ok:"):
             fs = rest[3:].split(";")
-            rts, invalid = [], False
+            rts, invalid, tree = [], False, None
             for f in fs[1:]:
                 if f == "INVALID":
                     invalid = True
                     continue
                 tag, _, x = f.partition(":")
+                if tag == "tree":
+                    tree = x
+                    continue
                 if x == "=":
                     rts.append((tag, "="))
                 elif x.startswith("ERR:"):
                     rts.append((tag, ("ERR", bytes.fromhex(x[4:]).decode("utf-8", "replace") if x[4:] != "-" else "")))
                 else:
                     rts.append((tag, ("dump", x)))
-            res[name] = ("ok", fs[0], rts, invalid)
+            res[name] = ("ok", fs[0], rts, invalid, tree)
         else:
             res[name] = ("?", rest)
     return res
@@ -177,6 +183,8 @@ def judge(case, line):
         except ValueError:
             pass
         return [("harness fidelity broken (dynserde disagrees with a real derived type — a HARNESS bug, not a finding): %s" % detail[:600], None)]
+    if case.cmd == "consts":
+        return []
     if line.startswith("BADCASE") or "err(BADCASE)" in line:
         return [("generator/harness bug: %s" % line[:200], None)]
     ty, v = case.meta["ty"], case.meta["v"]
@@ -203,7 +211,7 @@ def judge(case, line):
             cls = "private-datetime-key"
         elif r in ("val", "tab") and G.nested_none_below_field(ty, v):
             cls = "C07-tryfrom-nested-none-dropped"
-        _, payload, rts, invalid = x
+        _, payload, rts, invalid, _tree = x
         if invalid:
             out.append(("route %s: output is not valid TOML: %r" % (r, bytes.fromhex(payload).decode("utf-8", "replace") if payload != "-" else ""), cls))
             continue
@@ -248,34 +256,93 @@ def nontrivial(case, line):
     return case.cmd == "ser" and case.meta.get("depth", 0) >= 2
 
 
+def tv_eq_ordered(a, b):
+    """toml::Value trees with the SAME key order (BTreeMap iteration order of toml::Table); NaN == NaN"""
+    if a[0] != b[0]:
+        return False
+    k = a[0]
+    if k == "D":
+        return G.f64_eq(a[1], b[1])
+    if k == "L":
+        return len(a[1]) == len(b[1]) and all(tv_eq_ordered(x, y) for x, y in zip(a[1], b[1]))
+    if k == "T":
+        return len(a[1]) == len(b[1]) and all(ka == kb and tv_eq_ordered(x, y) for (ka, x), (kb, y) in zip(a[1], b[1]))
+    return a[1] == b[1]
+
+
 def compare(case, model_line, impl_line):
-    """the Coq model prints `-` for what it does not cover"""
+    """the correspondence between the Coq model (coq/Model/Ser.v, De.v through coq/Extract/Cmd_serde.v) and the
+    implementation, on the level of the VALUE TREE: per route the same outcome (error kind, or a tree equal to
+    the one the implementation's output denotes — exact key order for toml::Value / toml::Table, any order for
+    documents, whose printer moves sub-tables behind values), and the same result of reading that tree back
+    (error / value).  The Coq model prints `-` for what it does not cover."""
     if model_line is None or model_line == "-":
         return None
+    if case.cmd == "consts":
+        return None if model_line == impl_line else "the reserved names assumed by the model differ from the crates': %s / %s" % (model_line, impl_line)
+    if case.cmd != "ser":
+        return None
+    if impl_line.startswith("BADCASE") or model_line.startswith("BADCASE"):
+        return None if impl_line.startswith("BADCASE") and model_line.startswith("BADCASE") else "model %s, implementation %s" % (model_line[:60], impl_line[:60])
     m, i = parse_model(model_line), parse_ser_line(impl_line)
+    v = case.meta["v"]
     for r in ROUTES:
-        if r not in m:
-            continue
-        a, b = m[r], i.get(r)
-        if b is None:
+        a, b = m.get(r), i.get(r)
+        if a is None:
+            return "route %s missing in the model line" % r
+        if b is None or b[0] == "?":
             return "route %s missing" % r
         if a[0] != b[0]:
-            return "route %s: model %s, implementation %s" % (r, a[0], b[0])
-        if a[0] == "err" and a[1] != b[1] and a[1] != "*":
-            return "route %s: model err(%s), implementation err(%s)" % (r, a[1], b[1])
-        if a[0] == "ok" and a[1] not in ("*", b[1]):
-            return "route %s: model tree %s, implementation %s" % (r, a[1][:200], b[1][:200])
+            return "route %s: model %s, implementation %s" % (r, a[0] + ("(%s)" % a[1] if a[0] == "err" else ""), b[0] + ("(%s)" % b[1] if b[0] == "err" else ""))
+        if a[0] == "err":
+            if a[1] != b[1]:
+                return "route %s: model err(%s), implementation err(%s)" % (r, a[1], b[1])
+            continue
+        # same tree
+        itree = b[1] if r in ("val", "tab") else b[4]
+        if itree is None:
+            STATS["cmp:no-impl-tree"] += 1
+        else:
+            try:
+                mt, it = G.parse_tv(a[1]), G.parse_tv(itree)
+            except Exception as e:
+                return "route %s: unreadable tree (%s)" % (r, e)
+            same = tv_eq_ordered(mt, it) if r in ("val", "tab") else G.tv_eq(mt, it)
+            if not same:
+                return "route %s: model tree %s, implementation %s" % (r, a[1][:300], itree[:300])
+            STATS["cmp:tree"] += 1
+        # same result of reading it back
+        mrt = a[2]
+        if mrt is None or mrt == "UNMODELLED":
+            STATS["cmp:rt-unmodelled"] += 1
+            continue
+        for tag, rt in b[2]:
+            iok = not (rt != "=" and rt[0] == "ERR")
+            mok = mrt != "ERR"
+            if iok != mok:
+                return "route %s: reading the output back (%s): model %s, implementation %s" % (r, tag, "ok" if mok else "error", "ok" if iok else "error: " + rt[1][:100])
+            if iok:
+                iv = v if rt == "=" else G.parse_val(rt[1])
+                if not G.sval_eq(G.parse_val(mrt), iv):
+                    return "route %s: value read back (%s): model %s, implementation %s" % (r, tag, mrt[:300], "=" if rt == "=" else rt[1][:300])
+            STATS["cmp:rt"] += 1
     return None
 
 
 def parse_model(line):
+    """-> {route: ("err", kind) | ("ok", tree, readback)}"""
     res = {}
     for part in line.split(" "):
         name, _, rest = part.partition("=")
         if rest.startswith("err("):
             res[name] = ("err", rest[4:-1])
         elif rest.startswith("ok:"):
-            res[name] = ("ok", rest[3:])
+            fs = rest[3:].split(";")
+            rt = None
+            for f in fs[1:]:
+                if f.startswith("rt:"):
+                    rt = f[3:]
+            res[name] = ("ok", fs[0], rt)
     return res
 
 
